@@ -261,6 +261,8 @@ func (pr *Printer) exprP(e Expr) (string, int) {
 		return "none", precAtom
 	case NullLit:
 		return "null", precAtom
+	case AnyObjLit:
+		return "new { ? }", precAtom
 	case ListLit:
 		return "[" + pr.args(e.Elems) + "]", precAtom
 	case ObjLit:
